@@ -390,7 +390,7 @@ class Run:
         self.evals = 0
         self.hashes = set()
         self.samples = []
-        self.cov = {"callers_judged": 0, "states": {}, "plans": {}, "callbacks": {}, "multi_eligible_cases": 0,
+        self.cov = {"callers_judged": 0, "connection_states": {}, "plans": {}, "callbacks": {}, "multi_eligible_cases": 0,
                     "concurrent_callers": {}, "napps": {}, "npeers": {}}
 
     def witness(self, key, detail, replay=None):
@@ -425,7 +425,7 @@ class Run:
         self.evals += 1
         self.cov["callers_judged"] += c.judged
         for s in cfg["states"]:
-            self.cov["states"][s] = self.cov["states"].get(s, 0) + 1
+            self.cov["connection_states"][s] = self.cov["connection_states"].get(s, 0) + 1
         for _, _, pl in callers:
             self.cov["plans"][pl] = self.cov["plans"].get(pl, 0) + 1
         self.cov["callbacks"][cfg["callback"]] = self.cov["callbacks"].get(cfg["callback"], 0) + 1
@@ -483,7 +483,7 @@ def finish(tier, seed, cov, evaluations):
     out = []
     if cov.get("callers_judged", 0) == 0:
         out.append("no caller was judged")
-    for k, vals in (("states", STATES), ("plans", PLANS), ("callbacks", CALLBACKS)):
+    for k, vals in (("connection_states", STATES), ("plans", PLANS), ("callbacks", CALLBACKS)):
         for v in vals:
             if cov.get(k, {}).get(v, 0) == 0:
                 out.append(f"{k} class {v} never exercised")
